@@ -101,6 +101,8 @@ class Canon:
                 r = (t.__name__, tuple(sorted((self._c(x, path, memo) for x in v), key=repr)))
             elif t is bytearray:
                 r = ("k", "bytearray", repr(bytes(v)))
+            elif t is memoryview:
+                r = ("k", "memoryview", repr(bytes(v)), "readonly" if v.readonly else "writable")
             elif isinstance(v, (list, tuple, dict, set, frozenset)):
                 r = ("sub", t.__name__, repr(v)[:200])
             else:
@@ -293,6 +295,22 @@ class RefVM(pickle._Unpickler):
         m, n = norm_global(module, name)
         self.log.add(("import", m, n))
         return self.log.glob(m, n)
+
+    def get_extension(self, code):
+        # a VM with a cold extension cache (the consumer's fresh process): the first use of a code in this program goes
+        # through find_class, later uses get the same object; the process-wide copyreg._extension_cache - filled by
+        # whatever resolved the code first - is state outside the bytes and is neither read nor written
+        cache = self.__dict__.setdefault("_vp_ext_cache", {})
+        if code in cache:
+            self.append(cache[code])
+            return
+        key = _copyreg._inverted_registry.get(code)
+        if not key:
+            if code <= 0:
+                raise pickle.UnpicklingError("EXT specifies code <= 0")
+            raise ValueError("unregistered extension code %d" % code)
+        cache[code] = self.find_class(*key)
+        self.append(cache[code])
 
     def persistent_load(self, pid):
         ev = ("pers", canon(pid))
